@@ -433,13 +433,17 @@ func TestC19(t *testing.T) {
 		"(a) complete enumeration of all (pattern, path, case rule) triples with pattern and path of length<=3 over {a A b . s ſ k K(U+212A) i İ}, "+
 			"for plain patterns, the same strings wrapped as /regexp/, and the case-sensitive :map/:conv comparison; "+
 			"(b) rapid-generated patterns (plain, RE2 grammar with classes, escapes, anchors, groups, flags) with query sequences that alternate the case rule on one matcher, "+
-			"through PatternMatcher, Options.ShouldSkip/CompareFieldName, IdentMatcher, NameMatcher, FieldConverter; oracle = ==, strings.EqualFold, regexp with (?i). "+
+			"through PatternMatcher, Options.ShouldSkip/CompareFieldName, IdentMatcher, NameMatcher, FieldConverter; oracle = ==, strings.EqualFold, regexp with (?i); "+
+			"(e) end to end: 1-4 ':skip' lines (plain, /regexp/ with inline flags, anchored literals) with ':case'/':case:off' lines at any position go through the production notation parser, builder and generator on a fixed struct pair (top-level and nested paths, non-ASCII names) and the set of '// skip:' comments must be exactly the paths that at least one pattern matches on its own under the method's case rule. "+
 			"Non-trivial: a triple with a non-ASCII or upper-case letter or a regexp metacharacter, or a sequence that switches the case rule; enumerated triples are distinct by construction, generated ones are deduplicated by hash.")
 	defer rec.Done()
 	rec.Assume("oracle is Go's regexp (RE2) and strings.EqualFold from the toolchain that builds the harness")
 	rec.Assume("paths and patterns contain no white space (a notation argument cannot carry any)")
 
 	judgeCase := func(c *hx.Case) hx.Verdict {
+		if c.Kind == "e2e" && c19E2EReplay != nil {
+			return c19E2EReplay(env, c)
+		}
 		var m c19Meta
 		if err := json.Unmarshal(c.Meta, &m); err != nil {
 			return hx.Failf("harness|bad-meta", "%v", err)
@@ -573,4 +577,15 @@ func TestC19(t *testing.T) {
 		rec.Sample(m)
 		rec.Report(rt, c19Judge(m), c19Case(m))
 	})
+
+	// (e) end to end through the production notation parser, builder and generator (c19_e2e_test.go, build tag verif)
+	if c19EndToEnd != nil {
+		c19EndToEnd(t, env, rec)
+	}
 }
+
+// set by c19_e2e_test.go (only built with the verif tag, which bin/check always passes)
+var (
+	c19EndToEnd  func(t *testing.T, env *hx.Env, rec *hx.Recorder)
+	c19E2EReplay func(env *hx.Env, c *hx.Case) hx.Verdict
+)
